@@ -2,8 +2,10 @@
 
 Correspondence: harness/h_getopt.c (util/getopt.c through the GETOPT_* macros, four compile-time
 tables) against `pmodel getopt` (L1 printed from Spec.Getopt.getopt, L2 from Model.Getopt's states).
-Cases: EXHAUSTIVE enumeration of every argv of length <= 3 (quick) / <= 4 (thorough) over a
-per-table alphabet of 15..16 words, a directed abandoned-parse sweep, and random vectors up to length 8."""
+Cases: EXHAUSTIVE enumeration of every argv of length <= 3 (quick) / <= 4 (thorough; <= 5 for table 0)
+over a per-table alphabet of 15..17 words, a directed abandoned-parse sweep, and random vectors up to
+length 8.  Every `case` starts like a fresh process (the harness re-initialises getopt.c's variables), so
+the first parse of a case is a fresh parse and the others are parses after optreset = 1."""
 import itertools
 import os
 import vlib
@@ -160,7 +162,7 @@ def classify(case, out):
 def components(ctx):
     return [vlib.Component(
         "getopt", "h_getopt.c", [], ["getopt"], gen_getopt, nontrivial=nontrivial,
-        rule="(1) exhaustive: every argv of length 0..3 (quick) / 0..4 (thorough) over the per-table alphabet "
+        rule="(1) exhaustive: every argv of length 0..3 (quick) / 0..4 (thorough; 0..5 for table 0) over the per-table alphabet "
              "(15-17 words: registered/unregistered short and long options, packed groups, attached and =value "
              "arguments incl. empty, abbreviations, '-', '--', empty word, operand) for each of the 4 compile-time tables, "
              "%d parses per case; (2) abandoned-parse sweep: every argv of length 1..2 (quick) / 1..3 (thorough), loop left "
